@@ -750,6 +750,7 @@ def run(ctx):
                 rblocks.append(_expand(p, wseed))
         ctx.run_parallel("real_rng", rblocks, workers=min(_workers(), len(rblocks)))
     _count_states(ctx)
+    ctx.counters["max_depth"] = 2 if ctx.quick else 3   # epochs per history (the bfs bound completed)
 
 
 def _count_states(ctx):
